@@ -39,7 +39,7 @@ func (fc *FuncContract) trackedCallees() []string {
 
 // returnsiteChecks emits the `returnsite` assertions at a return statement of the function under contract.
 func (e *Exec) returnsiteChecks(st *State, s *ast.ReturnStmt) {
-	if e.quiet || e.inContract > 0 || st.dead {
+	if e.suppressSites() || e.inContract > 0 || st.dead {
 		return
 	}
 	fc := e.frames[0].contract
@@ -77,7 +77,7 @@ func (e *Exec) closed0() Term {
 // sendsiteChecks: `callsite send ...` assertions are checked at every channel send of the function under
 // contract (arg_value is the value sent); the ghost flag called("send") records that a send happened.
 func (e *Exec) sendsiteChecks(st *State, s *ast.SendStmt, v Val) {
-	if e.quiet || e.inContract > 0 || st.dead {
+	if e.suppressSites() || e.inContract > 0 || st.dead {
 		return
 	}
 	fc := e.frames[0].contract
@@ -112,7 +112,7 @@ func (e *Exec) lockAcquired(st *State, name string, x *ast.CallExpr) {
 	if !strings.HasSuffix(name, ".Lock") && !strings.HasSuffix(name, ".RLock") {
 		return
 	}
-	if e.quiet || e.inContract > 0 || st.dead || len(e.frames) != 1 {
+	if e.suppressSites() || e.inContract > 0 || st.dead || len(e.frames) != 1 {
 		return
 	}
 	fr := e.frames[0]
